@@ -2,7 +2,7 @@
    For every candidate list cs whose scores are the single-prediction scores (score_union r [p]),
    every direction, every threshold, every combined-score function score_union:
    after the loop (M = label map as (pred, ref) entries, S = score per matched reference) *)
-From Pan Require Import Base.Common Model.MetricTable Model.Matcher Model.Merge Proofs.Matching Proofs.MatcherQ Proofs.MergeFacts.
+From Pan Require Import Base.Common Model.MetricTable Model.Matcher Model.Merge Proofs.Matching Proofs.MatcherQ Proofs.MergeFacts Proofs.MergeFree.
 From Coq Require Import Permutation.
 Open Scope Z_scope.
 
@@ -55,6 +55,20 @@ Proof.
   intros decr thr score_union pre c st HI Hs Hr st'. apply (merge_strictly_improves Q (better_eq decr) Qeq_bool (fun s => beats decr s thr) score_union pre c st HI Hs Hr).
 Qed.
 
+(* "at least as good as its best single candidate", in its strongest form: the final score of a matched reference is at least as
+   good as the single score of EVERY candidate prediction of that reference that was not given to another reference -- whether it
+   was merged in, rejected, or below the threshold (best-first order: its seed scored at least as well, and merges only improve) *)
+Theorem C14_final_score_at_least_every_free_candidate : forall decr thr (score_union : Z -> list Z -> Q) (cs : list qcand),
+  (forall c, In c cs -> fst c = score_union (cref c) [cpred c]) ->
+  let st := merge_match (better_eq decr) Qeq_bool (fun s => beats decr s thr) score_union cs in
+  forall c S, In c cs -> lookup_score (cref c) (ms_score st) = Some S ->
+    (forall r', In (cpred c, r') (ms_map st) -> r' = cref c) -> better_eq decr S (fst c) = true.
+Proof.
+  intros decr thr score_union cs Hseed st c S Hc Hl Hfree.
+  exact (merge_final_beats_free_candidates Q (better_eq decr) (better_eq_refl decr) (better_eq_trans decr) Qeq_bool
+           (fun s => beats decr s thr) (fun a b => beats_up decr thr a b) score_union (better_eq_total decr) cs Hseed c S Hc Hl Hfree).
+Qed.
+
 (* a merge is accepted only when the combined score is strictly better in the metric's direction:
    the decision table of one loop iteration (tied to the source by Gen/MatcherLoop) *)
 Theorem C14_merge_only_if_strictly_better : forall cp cr beat nb ne,
@@ -72,4 +86,19 @@ Example C14_nonvacuous :
   let cs : list qcand := [((1 # 2), (1, 1)); ((1 # 2), (1, 2)); ((1 # 10), (1, 3))] in
   let st := merge_match (better_eq false) Qeq_bool (fun s => beats false s (1 # 2)) su cs in
   ms_map st = [(1, 1); (2, 1)] /\ lookup_score 1 (ms_score st) = Some 1%Q.
+Proof. vm_compute. split; reflexivity. Qed.
+
+(* non-vacuity of C14_final_score_at_least_every_free_candidate: in the example above fragment 3 (single score 1/10) stays unassigned,
+   fragments 1 and 2 are assigned to reference 1; the final score 1 is at least as good as each of the three single scores *)
+Example C14_free_candidates_nonvacuous :
+  let su := fun (r : Z) (ps : list Z) =>
+     if (length ps =? 1)%nat then (match ps with [3] => 1 # 10 | _ => 1 # 2 end)
+     else if existsb (Z.eqb 3) ps then (2 # 3) else 1%Q in
+  let cs : list qcand := [((1 # 2), (1, 1)); ((1 # 2), (1, 2)); ((1 # 10), (1, 3))] in
+  let st := merge_match (better_eq false) Qeq_bool (fun s => beats false s (1 # 2)) su cs in
+  (* the seeds are the single scores; every candidate's prediction is free for reference 1; the final score 1 beats them all *)
+  forallb (fun c : qcand => Qeq_bool (fst c) (su (cref c) [cpred c])
+                            && forallb (fun e : Z * Z => if fst e =? cpred c then snd e =? cref c else true) (ms_map st)
+                            && better_eq false 1%Q (fst c)) cs = true
+  /\ lookup_score 1 (ms_score st) = Some 1%Q.
 Proof. vm_compute. split; reflexivity. Qed.
